@@ -11,6 +11,7 @@ Vocabulary (defined in `Proofs/Files.lean`):
 * `Codec.Good c` — the assumptions on the encoding: stateless character-wise encoder, ASCII-compatible,
   `dec (enc s) = s`.  `c.encode s = c.bom ++ enc s` is Python's `s.encode(encoding)`;
 * `c.enc s = some y` — the text `s` is encodable (no `UnicodeEncodeError`) and `y` are its bytes;
+* `Fresh fs p m` — the previous content of the file plays no role: a truncating mode, or `at` on a missing file;
 * `EolDisjoint eol text` — the EOL is not empty and its characters other than `'\n'` do not occur in the text;
 * `unlines ls` — every line followed by `'\n'`.
 
@@ -19,15 +20,6 @@ a theorem here (see the notes; the harness observes it on the real code).
 -/
 namespace N0.C15
 open N0 N0.Py N0.Files
-
-/-- the previous content of the file plays no role: a truncating mode, or `at` on a missing file -/
-def Fresh (fs : FS) (p m : Str) : Prop := m = ['a', 't'] → fs p = none
-
-theorem startContent_fresh {fs : FS} {p m : Str} (h : Fresh fs p m) : startContent fs p m = [] := by
-  unfold startContent
-  split
-  · rename_i hm; rw [h hm]; rfl
-  · rfl
 
 /-- **C15 (bytes on disk).**  For every text, each of the modes `t b wt wb` (and `at` on a missing
 file), every EOL — standard, LFCR or custom — and every codec: `save_file` succeeds as soon as the
@@ -54,34 +46,11 @@ theorem C15_disk_dict (c : Codec) (fs : FS) (p : Str) (kvs : List (Str × Str)) 
   rw [saveFile_dict]
   exact (C15_disk_bytes c fs p _ m eol tag y e hm hf henc heol).2.1
 
-/-- the standard EOLs never interfere with a text without `'\r'` -/
-theorem eolDisjoint_std (eol text : Str) (he : isStdEol eol = true) (h : NoCR text) : EolDisjoint eol text := by
-  have he' : (eol = crlf ∨ eol = lf) ∨ eol = cr := by
-    simpa [isStdEol, Bool.or_eq_true] using he
-  rcases he' with (rfl | rfl) | rfl
-  · refine ⟨by simp [crlf], ?_⟩
-    intro ch hch hn
-    simp only [crlf, List.mem_cons, List.not_mem_nil, or_false] at hch
-    rcases hch with rfl | rfl
-    · exact h
-    · exact absurd rfl hn
-  · refine ⟨by simp [lf], ?_⟩
-    intro ch hch hn
-    simp only [lf, List.mem_cons, List.not_mem_nil, or_false] at hch
-    exact absurd hch hn
-  · refine ⟨by simp [cr], ?_⟩
-    intro ch hch hn
-    simp only [cr, List.mem_cons, List.not_mem_nil, or_false] at hch
-    subst hch; exact h
-
-theorem std_ascii (eol : Str) (he : isStdEol eol = true) : IsAscii eol := by
-  have he' : (eol = crlf ∨ eol = lf) ∨ eol = cr := by
-    simpa [isStdEol, Bool.or_eq_true] using he
-  rcases he' with (rfl | rfl) | rfl <;> intro ch hch <;>
-    simp only [crlf, lf, cr, List.mem_cons, List.not_mem_nil, or_false] at hch
-  · rcases hch with rfl | rfl <;> decide
-  · subst hch; decide
-  · subst hch; decide
+/-- **C15 (list-level core of the round trip).**  Replacing every `'\n'` by the EOL and then every
+EOL by `'\n'` (Python's left-to-right `str.replace`) is the identity when EOL and text are disjoint. -/
+theorem C15_replace_roundtrip (eol text : Str) (h : EolDisjoint eol text) :
+    replace eol lf (replace lf eol text) = text :=
+  replace_roundtrip eol text h
 
 /-- **C15 (round trip).**  For a text whose only line separator is `'\n'` (no `'\r'`, and none of
 the characters of a custom EOL), saved under any of the modes with an ASCII EOL — LF, CRLF, CR,
@@ -145,11 +114,6 @@ the EOL and the encoding -/
 theorem C15_bytes_load (c : Codec) (fs : FS) (p eol : Str) (data : Bytes) (h : fs p = some data) :
     loadFile c fs p ['b'] eol = .ok (.bytes data) :=
   loadFile_b c fs p eol data h
-
-theorem decode_nil (c : Codec) (g : c.Good) : c.decode [] = some [] := by
-  unfold Codec.decode
-  have : c.dec [] = some [] := g.dec_enc [] [] g.enc_nil
-  cases hb : c.bom <;> simp [startsWith, this]
 
 /-- **C15 (lines).**  A list of lines (no line break inside a line) saved through a text mode with a
 standard EOL is stored one line per EOL — the file is the encoding of the lines each followed by
